@@ -117,6 +117,36 @@ def r12_3(ctx):
                'pickled either, the fallback put fails and the worker dies' % bad[0])
 
 
+def task_failure_record(ctx, rule):
+    """The record of a task's own exception is made in the handler of the task call from the exception being handled,
+    whole: ExceptionInfo() (= sys.exc_info()), or an explicit triple whose traceback is the exception's full
+    traceback -- never a part of it (tb_next is None for a C-level callable: Traceback(None) kills the worker)."""
+    ctx.rule(rule, 'the failure record of a task is built from the whole live exception in the handler of the task call',
+             floor=1)
+    A = WorkloopAnchors(ctx)
+    fi = A.fi
+    n_rec = 0
+    for tn in A.task_nodes:
+        for (tr, part, h) in q.enclosing_trys(fi, tn.ast):
+            if part != 'body':
+                continue
+            for h_ in tr.handlers:
+                for c in [x for st in h_.body for x in ast.walk(st) if isinstance(x, ast.Call)
+                          and fi.callee(x) == 'ExceptionInfo']:
+                    n_rec += 1
+                    ok = not c.args and not c.keywords
+                    why = 'ExceptionInfo() of the exception being handled'
+                    if not ok and len(c.args) == 1 and isinstance(c.args[0], ast.Tuple) and len(c.args[0].elts) == 3:
+                        tbx = ast.unparse(c.args[0].elts[2])
+                        name = h_.name or '?'
+                        ok = tbx in (name + '.__traceback__', 'sys.exc_info()[2]')
+                        why = 'explicit triple with the full traceback `%s`' % tbx if ok else \
+                            'the record is built from `%s`, a part of the traceback: it is None when the task is a ' \
+                            'C-level callable (int, operator.*), and the worker dies building the record' % tbx
+                    ctx.ob(rule, 'workloop:failure-record-from-the-whole-live-exception', ok, fi, c, why)
+    q.need(n_rec >= 1, 'Worker.workloop: no ExceptionInfo in the handler of the task call')
+
+
 def r12_4(ctx):
     ctx.rule('R12.4', 'the picklable stand-ins provide the attributes the standard traceback formatter reads', floor=4)
     m = ctx.model
@@ -138,6 +168,19 @@ def r12_4(ctx):
     code = m.cls('einfo:_Code')
     ok = 'co_positions' in code.methods
     ctx.ob('R12.4', '_Code:co_positions', ok, code, None, 'co_positions available on 3.11+ (used by the formatter)')
+    # the formatter indexes the positions table with the traceback entry's tb_lasti, which can lie beyond the
+    # instruction the frame finally stopped at (a re-raise at the top of a retry loop): the table is copied whole
+    ci_init = code.methods['__init__']
+    cp = ci_init.positional_params()[1]
+    tabs = [(dn, v) for (dn, t, v) in q.assigns(ci_init, 'self._co_positions') if v is not None]
+    q.need(tabs, '_Code.__init__ does not copy the positions table')
+    for (dn, v) in tabs:
+        txt = q.expand(ci_init, v).replace(' ', '')
+        ok = txt in ('list(%s.co_positions())' % cp, 'tuple(%s.co_positions())' % cp, '[*%s.co_positions()]' % cp)
+        ctx.ob('R12.4', '_Code:positions-table-copied-whole', ok, ci_init, dn,
+               'self._co_positions = list(code.co_positions())' if ok else
+               'the positions table is cut (`%s`): traceback.format_tb looks entries up by tb_lasti and fails with '
+               'RuntimeError when that lies beyond the cut' % ast.unparse(v))
     tr = m.func('einfo:_Truncated.__init__')
     objs = [c for c in walk_own(tr.node) if isinstance(c, ast.Call) and tr.callee(c) == '_Object']
     kws = set()
@@ -203,6 +246,7 @@ def run(ctx):
     r12_3(ctx)
     r12_4(ctx)
     r12_5(ctx)
+    task_failure_record(ctx, 'R12.8')
     # every frame / code stand-in mirrors the very object it was made from: no stand-in is shared between two
     # different code objects through a table keyed by less than the object, or through class-level state
     from .generic import memo_key_covers_inputs, per_instance_state
@@ -213,6 +257,10 @@ def run(ctx):
 _E ='billiard/einfo.py'
 _P = 'billiard/pool.py'
 MUTANTS = [
+    ('failure-record-without-the-outer-frame', _P, "                        result = (False, ExceptionInfo())\n",
+     "                        result = (False, ExceptionInfo((type(exc), exc, exc.__traceback__.tb_next)))\n", 'R12.8'),
+    ('positions-table-cut-at-f_lasti', _E, "            self._co_positions = list(code.co_positions())\n",
+     "            self._co_positions = list(code.co_positions())[:len(code.co_code) // 4]\n", 'R12.4'),
     ('text-formatted-from-the-exception-object', _E, "                traceback.format_exception(self.type, exception, tb),\n",
      "                traceback.TracebackException.from_exception(exception).format(),\n", 'R12.5'),
     ('code-stand-ins-cached-by-name', _E, "        self.f_code = self.Code(frame.f_code)\n",
